@@ -495,5 +495,16 @@ func TrackerWF(t *SessionTracker) bool {
 // C02: a failing sub-key of NOT / OR is reported, never turned into success.
 
 //@ func readSearchKeyWithAtom(criteria *imap.SearchCriteria, dec *imapwire.Decoder, key string) (err error)
-//@   props C02:post
+//@   props C02:post C19:post
+//@   requires criteria != nil && imap.NoSelfAliasing(criteria)
 //@   ensures __called("readSearchKey") && __failed("readSearchKey") ==> err != nil
+//@   ensures len(criteria.NotFlag) >= old(len(criteria.NotFlag)) && len(criteria.Flag) >= old(len(criteria.Flag))
+
+// readSearchKey is recursive through a closure handed to Decoder.ExpectList;
+// its frame (it only fills the criteria it is given) is assumed, not proved.
+//
+//@ func readSearchKey(criteria *imap.SearchCriteria, dec *imapwire.Decoder) (err error)
+//@   props C02:post C19:post
+//@   trusted
+//@   modifies criteria
+//@   ensures old(dec.Err()) != nil ==> dec.Err() == old(dec.Err())
